@@ -30,7 +30,7 @@ class C05(LBCheck):
           'non-trivial = a join or leave was delivered; distinct as C03')
   REQUIRED_CLASSES = ('heap', 'aperture', 'join-duplicate', 'leave-unknown', 'rejoin', 'notify-during-loading',
                       'rejoin-while-draining', 'removal', 'init-retry', 'saturation-probe', 'full-stack', 'tuple-endpoints', 'close-raises-on-leave', 'duplicates-in-initial-list',
-                      'named-endpoint', 'zk-backed', 'zk-backed:named-endpoint', 'zk-backed:restart', 'zk-backed:path-recreated', 'zk-backed:registrant-without-the-named-endpoint', 'look-alike-endpoints',
+                      'named-endpoint', 'zk-backed', 'zk-backed:named-endpoint', 'zk-backed:restart', 'zk-backed:path-recreated', 'zk-backed:provider-shared-by-two-balancers', 'zk-backed:registrant-without-the-named-endpoint', 'look-alike-endpoints',
                       'yielding-close', 'yielding-close:closed-inside-completion', 'yielding-close:root-leaves-in-window',
                       'yielding-close:idle-leaves-in-window', 'yielding-close:rejoin-in-window', 'thrift', 'mux')
   ASSUMPTIONS = ('eligible endpoints are read from the balancer\'s heap and idle set (observe_at: internal)',)
@@ -125,6 +125,19 @@ class C05(LBCheck):
     live = []
     stats = {'dispatches': 0, 'checks': 0}
     bad_ok[0] = open_ar.ready()
+    lb2 = None
+    if idx % 5 == 4 and open_ar.ready():
+      # a second client built from the same builder: its balancer shares the provider object with the first
+      from scales.loadbalancer.heap import HeapBalancerSink as H_
+      classes.add('zk-backed:provider-shared-by-two-balancers')
+      w2 = make_world(env, rng, kind, dict(lb_params), lambda ch: (0.0, True), provider=prov)
+      H_.Node.registry = w.nodes        # (the node registry stays with the first world)
+      lb2 = w2.lb
+      ar2 = w2.top.Open()
+      g = 0
+      while not ar2.ready() and g < 100:
+        env.advance(0.05)
+        g += 1
 
     def quiesce():
       for _ in range(100):
@@ -151,6 +164,13 @@ class C05(LBCheck):
         out.violate('membership:differs', '%s: balancer over the ZooKeeper provider can dispatch to %r, the member '
                     'znodes present name %r' % (where, sorted(map(str, eligible)), sorted(map(str, t))),
                     dict(facts, missing=bool(t - eligible), extra=bool(eligible - t)))
+      if lb2 is not None and not out.violations:
+        out.obligations += 1
+        elig2 = set(n.endpoint for n in lb2._heap[1:]) | set(getattr(lb2, '_idle_endpoints', ()))
+        if elig2 != t:
+          out.violate('membership:differs', '%s: the second balancer sharing the ZooKeeper provider can dispatch to %r, the member '
+                      'znodes present name %r' % (where, sorted(map(str, elig2)), sorted(map(str, t))),
+                      dict(facts, second_balancer=True, missing=bool(t - elig2), extra=bool(elig2 - t)))
       bad = [n for n in lb._heap[1:] if getattr(n.channel, 'ep', n.endpoint) != n.endpoint]
       if bad:
         out.violate('membership:channel-of-other-endpoint', '%s: entry for %s dispatches over a channel created for %s' % (
@@ -229,6 +249,8 @@ class C05(LBCheck):
           sorted(map(str, got)), sorted(map(str, t))), facts)
       for r in list(live):
         w.complete(r, 'reply')
+    if lb2 is not None:
+      w2.top.Close()
     w.top.Close()
     zk.shutdown()
     env.advance(0.2)
